@@ -11,5 +11,8 @@ open RV.C02
 #print axioms union_view
 #print axioms triples_choices
 #print axioms path_pattern_graph
+#print axioms registry_isolation
+#print axioms union_of_registered_graphs
+#print axioms default_union_switch
 #print axioms prefix_empty_graph_falls_back
 #print axioms prefix_graphs_of_triple_lists_default
